@@ -86,6 +86,12 @@ def _returns_created(A, f):
     spec = A.spec
     if not any(y.get('fn') in spec.creators for b, ev in A.P.events(f) for y in walk(ev['e']) if isinstance(y, dict) and y.get('k') == 'call'):
         return False
+    for b, ev in A.P.events(f):
+        t = ev['e']
+        if t.get('k') == 'ret' and 'e' in t:
+            r = strip(t['e'])
+            if isinstance(r, dict) and r.get('k') == 'call' and r.get('fn') in spec.creators:
+                return True
     hits = []
 
     def exit_bad(s):
